@@ -37,10 +37,12 @@ def gen_cases(seed, tier):
     rng = np.random.default_rng([seed, 1])
     nprob = 64 if tier == "quick" else 800
     max_sweeps = 2500 if tier == "quick" else 12000
-    devs = [1] if tier == "quick" else [1, 1, 1, 2, 3, 4, 8]
+    devs = [1, 1, 1, 2, 3] if tier == "quick" else [1, 1, 1, 2, 3, 4, 8]
     cases = []
     for i in range(nprob):
         spec = gen.random_spec(rng, smin=2, smax=40 if tier == "quick" else 60)
+        if rng.random() < 0.15:
+            spec["S"] = int(rng.choice([65, 70, 97, 129]))
         init_mag = {"none": 0, "const": 12, "random": 4, "far": 4100}[spec["init"]] * spec["scale"]
         g, eps, rel = common.draw_gamma_eps(rng, spec["scale"], init_mag, max_sweeps)
         S = spec["S"]
